@@ -188,7 +188,8 @@ Definition make_opt (causal : bool) (const : K) (r : option tres) : option mres 
 Definition doit_model (causal : bool) (const : K) (F : list iterm) : option mres := make_opt causal const (doit_terms causal F).
 
 (* ==== theorems ========================================================================= *)
-Definition guard_sound := forall c on o, guard c on o = true -> c = true /\ on = o.
+(* the partner search is only entered with o = 1 *)
+Definition guard_sound := forall c on, guard c on 1%nat = true -> c = true /\ on = 1%nat.
 Record branches_ok := {
   simple_ok : forall r p s, s - p <> 0 ->
       exists x, b_simple B r p = Some x /\ sing x = [] /\ Lval s x = r / (s - p) /\ at0 (reg x) = r;
@@ -217,12 +218,12 @@ Fixpoint keys_nodup (l : list entry) : Prop :=
 Definition dead_safe (l : list entry) := forall pn on, In (None, pn, on) l -> key_fresh (cj pn) on l.
 Definition orders_pos (l : list entry) := forall r p o, In (r, p, o) l -> (1 <= o)%nat.
 
-Lemma find_partner_spec p o l i rn pn on : find_partner p o l = Some (i, (rn, pn, on)) ->
-  nth_error l i = Some (rn, pn, on) /\ on = o /\ p = cj pn.
+Lemma find_partner_spec p l i rn pn on : find_partner p 1%nat l = Some (i, (rn, pn, on)) ->
+  nth_error l i = Some (rn, pn, on) /\ on = 1%nat /\ p = cj pn.
 Proof. revert i. induction l as [|[[r0 p0] o0] l IH]; intros i H; cbn [find_partner] in H; [discriminate|].
-  destruct (guard (feqb p (cj p0)) o0 o) eqn:G.
-  - inversion H; subst. destruct (Hg _ _ _ G) as [C E]. apply feqb_eq in C. repeat split; assumption.
-  - destruct (find_partner p o l) as [[i' e']|] eqn:F; [|discriminate]. inversion H; subst.
+  destruct (guard (feqb p (cj p0)) o0 1%nat) eqn:G.
+  - inversion H; subst. destruct (Hg _ _ G) as [C E]. apply feqb_eq in C. repeat split; assumption.
+  - destruct (find_partner p 1%nat l) as [[i' e']|] eqn:F; [|discriminate]. inversion H; subst.
     destruct (IH i' eq_refl) as [A Bq]. split; assumption. Qed.
 Lemma evalue_clear s i l rc pc oc : nth_error l i = Some (Some rc, pc, oc) ->
   evalue s (clear_at i l) = evalue s l - rc / fpow (s - pc) oc.
@@ -286,7 +287,7 @@ Proof.
       destruct (Nat.eqb o 1) eqn:E1.
       * apply Nat.eqb_eq in E1. subst o.
         destruct (find_partner p 1 rest) as [[i [[rc0 pc] oc]]|] eqn:F.
-        -- destruct (find_partner_spec _ _ _ _ _ _ _ F) as [Hn [Hoc Hcj]]. subst oc.
+        -- destruct (find_partner_spec _ _ _ _ _ _ F) as [Hn [Hoc Hcj]]. subst oc.
            destruct rc0 as [rc|].
            ++ assert (Hne : p <> pc).
               { intros E. apply (key_fresh_nth _ _ _ _ _ _ _ Hfr Hn). split; [symmetry; exact E | reflexivity]. }
